@@ -297,7 +297,18 @@ func (r *rpcStub) GetTxOut(txid string, vout uint32) (*txwatcher.TxOutResp, erro
 			}
 		}
 	}
-	return &txwatcher.TxOutResp{BestBlockHash: best, Confirmations: conf, Value: 0}, nil
+	resp := &txwatcher.TxOutResp{BestBlockHash: best, Confirmations: conf, Value: 0}
+	if f != nil && f.Kind == "lag" {
+		// the answer is computed now and arrives Ms later (a loaded back-end, a slow link): what
+		// the caller gets describes the chain as it was when the request was served
+		d := f.Ms
+		if d <= 0 {
+			d = 1500
+		}
+		rt.NewEvent("lag").WaitTimeout(r.c.Name+".rpc.gettxout.lag", ms(d))
+		r.n.checkAlive()
+	}
+	return resp, nil
 }
 
 func (r *rpcStub) GetBlockHash(height uint32) (string, error) {
